@@ -463,6 +463,44 @@ func main() {
 			for k := 0; k < 2; k++ {
 				runProgram(m, genProgram(r, m, s))
 			}
+			if r.Chance(1, 3) && len(s.ops) >= 2 {
+				// the SAME Arch value gets another opcode list of the same length (front-ends set and
+				// re-sort Arch.Op on one object): nothing remembered from the first list may leak
+				s2 := s
+				all := allOps()
+				have := map[string]bool{}
+				for _, o := range s.ops {
+					have[o] = true
+				}
+				var fresh []string
+				for _, n := range names {
+					if !have[n] && modeAllowed(all[n], s.mode) {
+						fresh = append(fresh, n)
+					}
+				}
+				s2.ops = append([]string{}, s.ops...)
+				for i := range s2.ops {
+					if len(fresh) > 0 && r.Chance(1, 2) {
+						j := r.Intn(len(fresh))
+						s2.ops[i] = fresh[j]
+						fresh = append(fresh[:j], fresh[j+1:]...)
+					}
+				}
+				sort.Strings(s2.ops)
+				ops := make([]procbuilder.Opcode, 0, len(s2.ops))
+				for _, n := range s2.ops {
+					ops = append(ops, all[n])
+				}
+				sort.Sort(procbuilder.ByName(ops))
+				m.Arch.Op = ops // in place: same Machine, same Arch
+				out.Line("%s", s2.line())
+				emitLens(m, s2)
+				for _, op := range s2.ops {
+					for k := 0; k < 2; k++ {
+						runLine(m, genLine(r, s2, op))
+					}
+				}
+			}
 			out.Flush()
 		}
 	case "replay":
